@@ -769,6 +769,16 @@ class ReadParquetPyarrowFS(ReadParquet):
                 fs = type(fs)(**region, **storage_options)
             return fs
 
+    @cached_property
+    def _files(self):
+        """The file info of every fragment in ``fragments_unsorted``: the
+        fragments that the filters rule out are not listed there"""
+        all_files = self._dataset_info["all_files"]
+        if self.filters is None:
+            return all_files
+        by_path = {finfo.path: finfo for finfo in all_files}
+        return [by_path[frag.path] for frag in self.fragments_unsorted]
+
     def approx_statistics(self) -> dict:
         """Return an approximation of a single files statistics.
 
@@ -810,13 +820,13 @@ class ReadParquetPyarrowFS(ReadParquet):
         dict
         """
         idxs = self.sample_statistics()
-        files_to_consider = np.array(self._dataset_info["all_files"])[idxs]
+        files_to_consider = np.array(self._files)[idxs]
         stats = [_STATS_CACHE[tokenize(finfo)] for finfo in files_to_consider]
         return _combine_stats(stats)
 
     def load_statistics(self, files=None, fragments=None):
         if files is None:
-            files = self._dataset_info["all_files"]
+            files = self._files
         if fragments is None:
             fragments = self.fragments_unsorted
         # Collecting code samples is actually a little expensive (~100ms) and
@@ -843,7 +853,7 @@ class ReadParquetPyarrowFS(ReadParquet):
             The indices of files that were sampled
         """
         frags = self.fragments_unsorted
-        finfos = np.array(self._dataset_info["all_files"])
+        finfos = np.array(self._files)
         getsize = np.frompyfunc(lambda x: x.size, nin=1, nout=1)
         finfo_size_arr = getsize(finfos)
         finfo_argsort = finfo_size_arr.argsort()
@@ -868,7 +878,7 @@ class ReadParquetPyarrowFS(ReadParquet):
         """
         self.load_statistics()
         return [
-            _STATS_CACHE[tokenize(finfo)] for finfo in self._dataset_info["all_files"]
+            _STATS_CACHE[tokenize(finfo)] for finfo in self._files
         ]
 
     @cached_property
@@ -1011,7 +1021,7 @@ class ReadParquetPyarrowFS(ReadParquet):
     def all_statistics_known(self) -> bool:
         """Whether all statistics have been fetched from remote store"""
         return all(
-            tokenize(finfo) in _STATS_CACHE for finfo in self._dataset_info["all_files"]
+            tokenize(finfo) in _STATS_CACHE for finfo in self._files
         )
 
     def _fragment_sort_index(self):
